@@ -118,7 +118,7 @@ func checkNoDerefOfKnownNil(c *Ctx, res *report.Result, rule string, files []str
 					}
 					if _, isFA := ld.X.(*ssa.FieldAddr); isFA && path != "" {
 						if _, isLd := nilVal.(*ssa.UnOp); isLd {
-							if p, ok := flow.FieldPath(v); ok && p == path && flow.SameValue(v, nilVal) {
+							if p, ok := flow.FieldPath(v); ok && p == path && (flow.SameValue(v, nilVal) || sameLoadChain(v, nilVal, 0)) {
 								return true
 							}
 						}
@@ -136,6 +136,9 @@ func checkNoDerefOfKnownNil(c *Ctx, res *report.Result, rule string, files []str
 					return true
 				}
 				if fa, isFA := st.Addr.(*ssa.FieldAddr); isFA && path != "" {
+					if _, fresh := fa.X.(*ssa.Alloc); fresh {
+						return false // a field of an object under construction, not the tested one
+					}
 					if strings.HasSuffix(path, "."+flow.FieldName(fa.X.Type(), fa.Field)) {
 						return true
 					}
@@ -176,4 +179,26 @@ func checkNoDerefOfKnownNil(c *Ctx, res *report.Result, rule string, files []str
 	if tests < minTests {
 		res.Undec(rule, "nil tests examined", "", fmt.Sprintf("%d found, at least %d expected", tests, minTests))
 	}
+}
+
+// sameLoadChain: a and b are loads of the same field of the same base, the bases being the identical SSA value or
+// again such loads (x.f.g read twice).
+func sameLoadChain(a, b ssa.Value, d int) bool {
+	if a == b {
+		return true
+	}
+	if d > 4 {
+		return false
+	}
+	la, ok1 := a.(*ssa.UnOp)
+	lb, ok2 := b.(*ssa.UnOp)
+	if !ok1 || !ok2 || la.Op != token.MUL || lb.Op != token.MUL {
+		return false
+	}
+	fa, ok1 := la.X.(*ssa.FieldAddr)
+	fb, ok2 := lb.X.(*ssa.FieldAddr)
+	if !ok1 || !ok2 || fa.Field != fb.Field {
+		return false
+	}
+	return sameLoadChain(flow.ResolveLoad(fa.X), flow.ResolveLoad(fb.X), d+1) || fa.X == fb.X
 }
